@@ -6307,6 +6307,16 @@ func NewLsAttributeTLVs(lsAttr *LsAttribute) []LsTLVInterface {
 		tlvs = append(tlvs, NewLsTLVSrv6EndpointBehavior(lsAttr.Srv6SID.Srv6EndpointBehavior))
 	}
 
+	// Flexible Algorithm (RFC 9351): one Definition TLV per entry of the
+	// node and one Prefix Metric TLV per entry of the prefix, in the order
+	// of the slices.
+	for i := range lsAttr.Node.FlexAlgoDefs {
+		tlvs = append(tlvs, NewLsTLVFlexAlgoDef(&lsAttr.Node.FlexAlgoDefs[i]))
+	}
+	for i := range lsAttr.Prefix.FadPrefixMetrics {
+		tlvs = append(tlvs, NewLsTLVFADPrefixMetric(&lsAttr.Prefix.FadPrefixMetrics[i]))
+	}
+
 	return tlvs
 }
 
@@ -8752,6 +8762,34 @@ type LsTLVFADUnsupported struct {
 	SubTLVTypes []uint16
 }
 
+// NewLsTLVFlexAlgoDef builds the Flexible Algorithm Definition TLV of
+// one LsAttributeNode.FlexAlgoDefs entry (the inverse of the projection
+// PathAttributeLs.Extract makes). MetricTypeKnown is derived from
+// MetricType and not encoded.
+func NewLsTLVFlexAlgoDef(l *LsAttributeFlexAlgoDef) *LsTLVFlexAlgoDef {
+	length := 4
+	for _, n := range []int{4 * len(l.ExcludeAny), 4 * len(l.IncludeAny), 4 * len(l.IncludeAll), len(l.Flags), 4 * len(l.ExcludeSRLG)} {
+		if n > 0 {
+			length += tlvHdrLen + n
+		}
+	}
+	return &LsTLVFlexAlgoDef{
+		LsTLV: LsTLV{
+			Type:   LS_TLV_FLEX_ALGO_DEF,
+			Length: uint16(length),
+		},
+		Algorithm:   l.Algorithm,
+		MetricType:  l.MetricType,
+		CalcType:    l.CalcType,
+		Priority:    l.Priority,
+		ExcludeAny:  slices.Clone(l.ExcludeAny),
+		IncludeAny:  slices.Clone(l.IncludeAny),
+		IncludeAll:  slices.Clone(l.IncludeAll),
+		Flags:       slices.Clone(l.Flags),
+		ExcludeSRLG: slices.Clone(l.ExcludeSRLG),
+	}
+}
+
 func (l *LsTLVFlexAlgoDef) DecodeFromBytes(data []byte) error {
 	value, err := l.LsTLV.DecodeFromBytes(data)
 	if err != nil {
@@ -8981,6 +9019,20 @@ type LsTLVFADPrefixMetric struct {
 	Algorithm uint8
 	Flags     uint8 // OSPF-specific per RFC9351 Section 4; MUST be 0 for IS-IS
 	Metric    uint32
+}
+
+// NewLsTLVFADPrefixMetric builds the Flexible Algorithm Prefix Metric
+// TLV of one LsAttributePrefix.FadPrefixMetrics entry.
+func NewLsTLVFADPrefixMetric(l *LsAttributeFADPrefixMetric) *LsTLVFADPrefixMetric {
+	return &LsTLVFADPrefixMetric{
+		LsTLV: LsTLV{
+			Type:   LS_TLV_FAD_PREFIX_METRIC,
+			Length: 8,
+		},
+		Algorithm: l.Algorithm,
+		Flags:     l.Flags,
+		Metric:    l.Metric,
+	}
 }
 
 func (l *LsTLVFADPrefixMetric) DecodeFromBytes(data []byte) error {
